@@ -7,6 +7,7 @@ import Swat4.Model.Rest
 import Swat4.Model.Styles
 import Swat4.Spec.RestSpec
 import Swat4.Gen.Facts
+import Swat4.Lemmas.RestBridge
 /-!
 # C17 — REST API validates addresses, never 5xx on input, emits inert HTML
 
@@ -22,7 +23,7 @@ open Swat4 Swat4.Rest
 a port, the address is in none of the classes the property excludes (ranges written from the RFCs,
 independently of Go's mask tests), the port is in `1..65535`, and the address handed on is exactly
 the one given.  Over all 2³² addresses, by reasoning on the four bytes. -/
-theorem accepted_is_routable (ip : IP4) (port : Int) (a : Addr) (h : publicAddr ip port = .ok a) :
+theorem accepted_is_routable (ip : IP4) (port : Int) (a : Rest.Addr) (h : publicAddr ip port = .ok a) :
     RestSpec.loopback (toQuad ip) = false ∧ RestSpec.rfc1918 (toQuad ip) = false ∧
     RestSpec.linkLocal (toQuad ip) = false ∧ RestSpec.multicast (toQuad ip) = false ∧
     RestSpec.unspecified (toQuad ip) = false ∧ RestSpec.broadcast (toQuad ip) = false ∧
@@ -1052,6 +1053,109 @@ def configRows : List (String × String × String × String × String) :=
 theorem facts_config_wiring :
     (Facts.configWiring.filter fun r => configRows.contains r) = configRows ∧
     (Facts.configWiring.filter fun r => configRows.any fun c => c.1 == r.1 && c.2.1 == r.2.1 && c.2.2.1 == r.2.2.1 && c.2.2.2.1 == r.2.2.2.1) = configRows := by
+  decide
+
+/-! ## "never 5xx", bridged to the use-case programs
+
+`addExecute` / `viewExecute` / `listExecute` have no 5xx constructor: `status < 500` in the tables above is true of
+them by construction.  The Go use cases *can* fail: `UC.addServer` (the model of `addserver.Execute` as a program over
+repository calls, the one C16 uses) ends in `unableToCreate` / `unableToDiscover`, which `servers_add.go:37-40` answers
+with 500.  The theorems of this section (proved in `Lemmas/RestBridge.lean`) say that on a healthy store the program
+computes exactly the table function, hence never reaches those outcomes — and what does reach them. -/
+
+open RestBridge in
+/-- **"never 5xx" is a theorem about the program, not the shape of the table** (`POST /api/servers`).  For every address
+with a port the address constructor accepts and every store whose rows sit under the key of their own valid address
+(`hk`: `C16.KeyedOk`, invariant of all interleavings of the non-popping components by `C16_interleaved`), running
+`addserver.Execute` to completion without a storage fault gives: the handler's status = the status `addExecute` computes
+from the abstraction of the store (so one of 200/202/410), the same body data, and a store that differs from the
+initial one by exactly the effect `addExecute` names (`RestBridge.EffectIs`: nothing, or the one non-expiring discovery
+probe for the submitted address appended to the queue and the one row written with `port_retry`). -/
+theorem addExecute_abstracts (view : Server → Stored) (z : Fields) (m : Int) (a : Swat4.Addr) (s : AbsState) (now : Int)
+    (ha : a.PortOk)
+    (hk : ∀ (k : Nat) (row : SRow), s.servers[k]? = some row → row.svr.addr.key = k ∧ row.svr.addr.PortOk) :
+    addStatus ((UC.addServer z m a).run s now).2 = (addExecute (addrOf a) (srvStateOf view s a)).status ∧
+    addBody view ((UC.addServer z m a).run s now).2 = (addExecute (addrOf a) (srvStateOf view s a)).body ∧
+    EffectIs z m a now s ((UC.addServer z m a).run s now).1 (addExecute (addrOf a) (srvStateOf view s a)).effect :=
+  RestBridge.addExecute_abstracts view z m a s now ⟨by have := ha.1; omega, ha.2⟩ (canon_of_keyedOk s a ha hk)
+
+open RestBridge in
+/-- **the 5xx branch of `api.AddServer` is unreachable on a healthy store**: under the hypotheses above the outcome
+of `addserver.Execute` is never `unableToCreate` nor `unableToDiscover`; and under *any* placement `fs` of storage
+faults over its calls, a 500 outcome implies that `fs` contains a fault.  The honest limit of "never 5xx on any input":
+it is about the input, for a use case run alone on a working Redis — see `addServer_5xx_reachable`. -/
+theorem addServer_no_5xx (z : Fields) (m : Int) (a : Swat4.Addr) (s : AbsState) (now : Int) (ha : a.PortOk)
+    (hk : ∀ (k : Nat) (row : SRow), s.servers[k]? = some row → row.svr.addr.key = k ∧ row.svr.addr.PortOk) :
+    addStatus ((UC.addServer z m a).run s now).2 < 500 ∧
+    ((UC.addServer z m a).run s now).2 ≠ .unableToCreate ∧ ((UC.addServer z m a).run s now).2 ≠ .unableToDiscover ∧
+    ∀ fs, is5xx (runFaulty fs (UC.addServer z m a) s now).2 = true → ∃ e, some e ∈ fs :=
+  have hp : 0 ≤ a.port ∧ a.port ≤ 65535 := ⟨by have := ha.1; omega, ha.2⟩
+  have h := RestBridge.addServer_no_5xx z m a s now hp (canon_of_keyedOk s a ha hk)
+  ⟨h.1, h.2.1, h.2.2, fun fs h5 => addServer_5xx_needs_fault z m a s now fs hp (canon_of_keyedOk s a ha hk) h5⟩
+
+open RestBridge in
+/-- **what does reach the 500 branch.**  (1)–(3): one storage error — before or after taking effect — at any one of the
+repository calls `addserver.Execute` issues (`Get`; `Add`, `AddBetween`, `Update` for a new address; `AddBetween`,
+`Update` for a stored, undiscovered one), from every store.  (4): no fault at all, valid input, healthy store — two
+simultaneous submissions of the same new address (the second `Add` is refused: `ErrServerExists` →
+`ErrUnableToCreateServer`), or a cleaner removing the record between the submission's `Get` and its marking `Update`
+(`ErrServerNotFound` → `ErrUnableToDiscoverServer`): the model's interleaving semantics answers 500. -/
+theorem addServer_5xx_reachable (z : Fields) (m : Int) (a : Swat4.Addr) (s : AbsState) (now : Int) (effect : Bool) :
+    ((runFaulty [some effect] (UC.addServer z m a) s now).2 = .unableToCreate ∧
+     (s.getRow a = none → 0 ≤ a.port ∧ a.port ≤ 65535 →
+       (runFaulty [none, some effect] (UC.addServer z m a) s now).2 = .unableToCreate ∧
+       (runFaulty [none, none, some effect] (UC.addServer z m a) s now).2 = .unableToDiscover ∧
+       (runFaulty [none, none, none, some effect] (UC.addServer z m a) s now).2 = .unableToDiscover) ∧
+     (∀ row, s.getRow a = some row → Status.has row.svr.status Status.details = false →
+       Status.hasAny row.svr.status (Status.portRetry ||| Status.detailsRetry) = false →
+       Status.has row.svr.status Status.noPort = false →
+       (runFaulty [none, some effect] (UC.addServer z m a) s now).2 = .unableToDiscover ∧
+       (runFaulty [none, none, some effect] (UC.addServer z m a) s now).2 = .unableToDiscover)) ∧
+    (((RestBridge.W.twoSubmissions.run RestBridge.W.raceEvents).clients.map UClient.result?) = [some "202", some "500"] ∧
+     ((RestBridge.W.submitVsCleaner.run RestBridge.W.removeEvents).clients.map UClient.result?) = [some "500", some "cleaned"]) :=
+  ⟨addServer_fault_5xx z m a s now effect, addServer_race_5xx.1, addServer_race_5xx.2.1⟩
+
+open RestBridge in
+/-- **`GET /api/servers/:address`, bridged**: `getserver.Execute` as a program (one `Get`; `RestBridge.getServer`)
+gives on a healthy store the status and body of `viewExecute` on the abstraction of the store and changes nothing; under
+any fault placement the handler's status stays below 500 (a storage error is `ErrUnableToObtainServer`, which the
+handler's switch does not map: an empty 200 — noted above under "outside the model"). -/
+theorem viewExecute_abstracts (view : Server → Stored) (a : Swat4.Addr) (s : AbsState) (now : Int) :
+    viewStatus ((getServer a).run s now).2 = (viewExecute (srvStateOf view s a)).status ∧
+    viewBody view ((getServer a).run s now).2 = (viewExecute (srvStateOf view s a)).body ∧
+    ((getServer a).run s now).1 = s ∧ (viewExecute (srvStateOf view s a)).effect = .none ∧
+    (((getServer a).run s now).2 ≠ .unableToObtain) ∧
+    ∀ fs, viewStatus (runFaulty fs (getServer a) s now).2 < 500 :=
+  RestBridge.viewExecute_abstracts view a s now
+
+open RestBridge in
+/-- **`GET /api/servers`, bridged**: on a healthy store `listservers.Execute` with `ds.Info` succeeds with a list `l`
+(by C14 `listed_iff_live`: exactly the stored servers with the `info` bit refreshed at or after `now − liveness`), and
+`listExecute` on the abstraction of the store answers 200 with `l` filtered by the query and mapped through
+`NewServerFromDomain`, in the same (key) order; the 500 of `servers_list.go:49-53` is reached exactly by a storage fault
+at the one `Filter` call. -/
+theorem listExecute_abstracts (view : Server → Stored) (liveness : Int) (f : ListForm) (s : AbsState) (now : Int) :
+    (∃ l, (UC.listServers liveness Status.info).run s now = (s, .ok l) ∧
+      listExecute now liveness f (recsOf view s) =
+        ⟨200, some (.list ((l.filter fun sv => queryMatch (prepareQuery f) (view sv).info).map
+          fun sv => serverJsonOf (view sv))), .none⟩) ∧
+    ∀ effect, (runFaulty [none, some effect] (UC.listServers liveness Status.info) s now).2 = .error (.repo .storage) :=
+  ⟨RestBridge.listExecute_abstracts view liveness f s now,
+   fun effect => (listServers_5xx_iff_fault liveness Status.info s now effect).2⟩
+
+/-- non-vacuity: the empty store and `RestBridge.W.stored` satisfy `hk`, `RestBridge.W.A` is a valid address; the
+concrete runs are in `Lemmas/RestBridge.lean` -/
+example : RestBridge.W.A.PortOk ∧
+    (∀ (k : Nat) (row : SRow), ({} : AbsState).servers[k]? = some row → row.svr.addr.key = k ∧ row.svr.addr.PortOk) :=
+  ⟨by unfold Addr.PortOk; decide, fun k row h => by simp at h⟩
+
+/-- non-vacuity of the hypotheses of `addServer_5xx_reachable` (2) and (3): the empty store has no row for
+`RestBridge.W.A`; `RestBridge.W.stored` holds it reported and never probed (the discovery branch); a fault at the
+enqueue resp. at the marking update gives `unableToDiscover` on these concrete stores -/
+example : (({} : AbsState).getRow RestBridge.W.A = none) ∧
+    (RestBridge.runFaulty [none, none, some false] (UC.addServer [] 2 RestBridge.W.A) {} 5).2 = .unableToDiscover ∧
+    (RestBridge.runFaulty [none, none, some true] (UC.addServer [] 2 RestBridge.W.A) RestBridge.W.stored 5).2 = .unableToDiscover ∧
+    RestBridge.addStatus (RestBridge.runFaulty [none, none, none, none] (UC.addServer [] 2 RestBridge.W.A) {} 5).2 = 202 := by
   decide
 
 end Swat4.C17
